@@ -81,7 +81,8 @@ func (e *pxEnv) close() {
 
 // pxFeatures: optional 4th argument of `px new` — letters switching on features that must not
 // change what travels (c: circuit breaker, r: rate limiter, p: passive health checks, all with
-// thresholds no episode reaches; a: active health checks every second; l: logging plugin)
+// thresholds no episode reaches; a: active health checks every second; l: logging plugin; s: size_limit plugin
+// with limits no exchange reaches; g: gzip plugin, the client then reports the decoded payload)
 var pxFeatures = ""
 
 func pxNew(strategy, ids, base string) string {
@@ -167,6 +168,12 @@ func pxNew(strategy, ids, base string) string {
 	if strings.Contains(pxFeatures, "l") {
 		cfg.Plugins.Enabled = true
 		cfg.Plugins.Chain = []config.PluginConfig{{Name: "logging"}}
+	}
+	if strings.Contains(pxFeatures, "s") {
+		// the size_limit plugin with limits no exchange reaches (it wraps the writer and holds the status back)
+		cfg.Plugins.Enabled = true
+		cfg.Plugins.Chain = append(cfg.Plugins.Chain, config.PluginConfig{Name: "size_limit", Config: map[string]interface{}{
+			"max_request_body": 1 << 30, "max_response_body": 1 << 30}})
 	}
 	if strings.Contains(pxFeatures, "g") {
 		// the gzip plugin where buildHandler puts it (C15 front-end episodes): the client of this
